@@ -58,11 +58,12 @@ Fixpoint mem_nat (x : nat) (l : list nat) : bool :=
 Fixpoint dedup (l : list nat) : list nat :=
   match l with [] => [] | x :: r => if mem_nat x r then dedup r else x :: dedup r end.
 
-(* iterations of a starred expression; an iteration that consumes nothing adds no new end position *)
-Fixpoint star_go (f : nat -> list nat) (fuel i : nat) : list nat :=
-  match fuel with
-  | O => [i]
-  | S k => i :: flat_map (fun j => if Nat.ltb i j then star_go f k j else []) (f i)
+(* iterations of a starred expression: the positions reachable from i by repeating f.  f only moves forward, so one
+   scan over the positions k = i, i+1, ... (n of them) that adds f k whenever k has been reached is complete. *)
+Fixpoint star_scan (f : nat -> list nat) (n k : nat) (reach : list nat) : list nat :=
+  match n with
+  | O => reach
+  | S n' => star_scan f n' (S k) (if mem_nat k reach then reach ++ f k else reach)
   end.
 
 Definition at_end (s : str) (i : nat) : bool := Nat.eqb i (length s).
@@ -78,7 +79,7 @@ Fixpoint ends (T : tables) (s : str) (r : re) (i : nat) : list nat :=
               end
   | Cat a b => dedup (flat_map (ends T s b) (ends T s a i))
   | Alt a b => dedup (ends T s a i ++ ends T s b i)
-  | Star a => dedup (star_go (ends T s a) (S (length s) - i) i)
+  | Star a => dedup (star_scan (ends T s a) (S (length s) - i) i [i])
   | Bol => if Nat.eqb i 0 then [i] else []
   | Eol => if at_end s i || before_final_newline s i then [i] else []
   | EndZ => if at_end s i then [i] else []
